@@ -109,6 +109,13 @@ type Behavior struct {
 	KickReason string
 	// KickDelay (KickPlay only): wait this long after JoinGame before kicking (stimulus).
 	KickDelay time.Duration
+	// DialDelay makes Dial itself slow (a backend that is slow at the connect stage); the
+	// dial gives up early if the proxy's context ends.
+	DialDelay time.Duration
+	// BeforeJoin, if set, is called on the connection's reader goroutine when the backend is
+	// about to send JoinGame (login answered, configuration finished); it may block to stall
+	// the join. If the proxy has closed the connection meanwhile, JoinGame is not sent.
+	BeforeJoin func(bc *BackendConn)
 }
 
 // Backend is a registered fake backend server.
@@ -230,6 +237,7 @@ func (b *Backend) Dials() int { b.mu.Lock(); defer b.mu.Unlock(); return b.dials
 func (b *Backend) Server() proxy.RegisteredServer { return b.H.P.Server(b.Name) }
 
 func (b *Backend) dial(ctx context.Context, player proxy.Player) (net.Conn, error) {
+	start := Now() // the proxy called Dial: the request has been admitted
 	b.mu.Lock()
 	n := b.dials
 	b.dials++
@@ -238,10 +246,18 @@ func (b *Backend) dial(ctx context.Context, player proxy.Player) (net.Conn, erro
 	obs := b.DialObserver
 	b.mu.Unlock()
 	if obs != nil {
-		obs(n, ctx, beh, Now())
+		obs(n, ctx, beh, start)
 	}
 	if hook != nil {
 		hook(n)
+	}
+	if beh.DialDelay > 0 {
+		t := time.NewTimer(beh.DialDelay)
+		select {
+		case <-t.C:
+		case <-ctx.Done():
+			t.Stop()
+		}
 	}
 	if beh.Mode == RefuseDial {
 		return nil, &net.OpError{Op: "dial", Net: "tcp", Addr: b.Addr, Err: errors.New("connection refused")}
@@ -252,7 +268,7 @@ func (b *Backend) dial(ctx context.Context, player proxy.Player) (net.Conn, erro
 	proxyEnd, backendEnd := lib.Pipe()
 	proxyEnd.SetAddrs(&net.TCPAddr{IP: net.IPv4(10, 9, 0, 2), Port: 40000 + n}, b.Addr)
 	pv := player.Protocol()
-	bc := &BackendConn{B: b, N: n, Behavior: beh, DialAt: Now(), DialCtx: ctx, joined: make(chan struct{}), loginSeen: make(chan struct{}), EntityID: 1000 + n}
+	bc := &BackendConn{B: b, N: n, Behavior: beh, DialAt: start, DialCtx: ctx, joined: make(chan struct{}), loginSeen: make(chan struct{}), EntityID: 1000 + n}
 	bc.Peer = newPeer(fmt.Sprintf("backend %s#%d", b.Name, n), backendEnd, proto.ServerBound, proto.ClientBound, pv)
 	bc.Peer.OnPacket = bc.onPacket
 	proxyEnd.OnClose(func() { bc.stamp(&bc.ProxyCloseAt) })
@@ -392,6 +408,12 @@ func (bc *BackendConn) finishLogin() {
 }
 
 func (bc *BackendConn) sendJoin() {
+	if f := bc.Behavior.BeforeJoin; f != nil {
+		f(bc)
+		if bc.Conn.PeerClosed() {
+			return // the proxy gave this connection up while the join was stalled
+		}
+	}
 	bc.stamp(&bc.JoinSendAt)
 	_ = bc.Send(MakeJoinGame(bc.Proto, bc.EntityID))
 	bc.mu.Lock()
